@@ -6,6 +6,8 @@ PROPS = {
     # dispenso code, sim-* only the accesses the harness declares for its payloads (but run ~3x as many seeds)
     "C10": {"variants": ["fine-default", "fine-tiny", "sim-default", "fine-default", "fine-tiny", "sim-tiny", "fine-default", "fine-tiny"],
             "prop_arg": "RACE", "quick_s": 40, "thorough_s": 900, "workers": 8},
+    # workloads that opt into the TSO store-buffer fault get it in the fine variants only: give those most workers
+    "C36": {"variants": ["fine-default", "fine-tiny", "sim-default", "fine-default", "fine-tiny", "sim-tiny", "fine-default", "fine-tiny"]},
     "C46": {"quick_s": 25},
     "C03": {"quick_s": 25},
     "C29": {"quick_s": 25},
